@@ -103,7 +103,8 @@ func txIDProbe(o *drv.Out) {
 }
 
 // subsidyTxProbe: the same through the real transaction path (CheckTx: CheckMessage -> msg.Check, fee, signature; then
-// HandleMessage): a signed MessageSubsidy whose ChainId is chain 2's escrow pool id is ACCEPTED and credits that pool.
+// HandleMessage): a signed MessageSubsidy whose ChainId is chain 2's escrow pool id was ACCEPTED and credited that pool before
+// /repo eca9d8a; it must now be refused (regression: fails with the finding's signature if it is accepted again).
 func subsidyTxProbe(o *drv.Out) {
 	o.Case("subsidy-tx-probe")
 	e, err := NewEnv(1, 1, 0)
